@@ -430,4 +430,7 @@ def run(ctx):
     from . import c11
     c11.rule_handoff(ctx, rep, rule='R-HANDOFF')
     c11.rule_must_refresh(ctx, rep, rule='R-HANDOFF')
+    # parser configuration that a reader switches while it runs (Paragraph.parse_setext in Quote.read) is restored
+    # on every path, early returns and exceptions included: otherwise the blocks after it parse differently
+    c11.rule_override(ctx, rep, RULE='R-OVERRIDE-RESTORED')
     rep.assume('block tokens follow the start/read protocol driven by block_tokenizer.tokenize_block')
